@@ -84,14 +84,7 @@ impl StateMachine<'_> {
     pub fn handle_grep_line(&mut self) -> std::io::Result<bool> {
         self.painter.emit()?;
 
-        let (previous_path, previous_line_type, previous_line, try_parse) = match &self.state {
-            State::Grep(_, line_type, path, line_number) => {
-                (Some(path.clone()), Some(line_type), line_number, true)
-            }
-            State::Unknown => (None, None, &None, true),
-            _ => (None, None, &None, false),
-        };
-        if !try_parse {
+        if !matches!(&self.state, State::Grep(_, _, _, _) | State::Unknown) {
             return Ok(false);
         }
 
@@ -112,6 +105,28 @@ impl StateMachine<'_> {
         if matches!(grep_line.line_type, LineType::Ignore) {
             return Ok(true);
         }
+        // A multi-line match (`rg --multiline --json`) arrives as one record whose text
+        // contains newlines: render it as the consecutive lines it consists of.
+        if grep_line.code.contains('\n') {
+            for physical_line in split_multiline_grep_line(grep_line) {
+                self.handle_parsed_grep_line(physical_line)?;
+            }
+            return Ok(true);
+        }
+        self.handle_parsed_grep_line(grep_line)?;
+        Ok(true)
+    }
+
+    fn handle_parsed_grep_line(&mut self, grep_line: GrepLine) -> std::io::Result<()> {
+        // (the previous line of a multi-line match may still be buffered)
+        self.painter.emit()?;
+        let (previous_path, previous_line_type, previous_line) = match &self.state {
+            State::Grep(_, line_type, path, line_number) => {
+                (Some(path.clone()), Some(line_type.clone()), *line_number)
+            }
+            _ => (None, None, None),
+        };
+        let (previous_line_type, previous_line) = (previous_line_type.as_ref(), &previous_line);
         let first_path = previous_path.is_none();
         let new_path = first_path || previous_path.as_deref() != Some(&grep_line.path);
         let line_number_jump =
@@ -144,8 +159,7 @@ impl StateMachine<'_> {
                 self.emit_classic_format_grep_line(grep_line)
             }
             _ => delta_unreachable("Impossible state while handling grep line."),
-        }?;
-        Ok(true)
+        }
     }
 
     // Emulate ripgrep output: each section of hits from the same path has a header line,
@@ -370,6 +384,39 @@ impl StateMachine<'_> {
         );
         Ok(())
     }
+}
+
+// Split a record whose code spans several lines into one GrepLine per line, with consecutive
+// line numbers and the submatches cut at the line boundaries.
+fn split_multiline_grep_line(grep_line: GrepLine) -> Vec<GrepLine> {
+    let mut lines = Vec::new();
+    let mut offset = 0;
+    for (i, code) in grep_line.code.split('\n').enumerate() {
+        let (start, end) = (offset, offset + code.len());
+        offset = end + 1;
+        let code = code.strip_suffix('\r').unwrap_or(code);
+        let submatches = grep_line.submatches.as_ref().map(|submatches| {
+            submatches
+                .iter()
+                .filter(|(a, b)| *a < end && *b > start && a <= b)
+                .map(|(a, b)| {
+                    (
+                        a.saturating_sub(start),
+                        (*b).min(start + code.len()).saturating_sub(start),
+                    )
+                })
+                .collect()
+        });
+        lines.push(GrepLine {
+            grep_type: grep_line.grep_type.clone(),
+            path: Cow::from(grep_line.path.to_string()),
+            line_number: grep_line.line_number.map(|n| n.saturating_add(i)),
+            line_type: grep_line.line_type.clone(),
+            code: Cow::from(code.to_string()),
+            submatches,
+        });
+    }
+    lines
 }
 
 fn make_style_sections<'a>(
